@@ -1,8 +1,10 @@
 """C14 - every internal link in the rendered output lands on an existing target.
 
 streams
-  url   : abstract render trees (level, label, number, children) x split level x toc depth x toc-non-files x base-url
-          x references.  Driver: Model.Urls (Macro.id/idgen, cacheFilenames, Renderable.url/__str__, tableofcontents proxy,
+  url   : abstract render trees (level, label, number, footnote flag, children) x split level x toc depth x toc-non-files
+          x base-url x filename template (a single-name template forces level -10) x references; labels include families
+          that collide as file names.  Footnotes: real footnote nodes registered in userdata['footnotes']; observed: the file
+          each mark is printed in and the file whose SectionUtils.footnotes lists it.  Driver: Model.Urls (Macro.id/idgen, cacheFilenames, Renderable.url/__str__, tableofcontents proxy,
           links next/prev, label lookup) and the Spec oracle (Spec.Links) on the model's own output.
           Implementation: a real TeXDocument DOM built from real section/par/environment classes, rendered by the real
           plasTeX.Renderers.Renderer with stub string templates (only id, url, children), so the real Renderable.url,
@@ -29,7 +31,10 @@ LEVEL_TEXT = ('Lean 4 theorems over a line-by-line model of Macro.id/idgen, Rend
               'toc-non-files on or off - through toc and next links (toc_reaches_every_file; toc_reaches_every_file_of_document states it on the input document alone: '
               'levels nest, split level < ENDSECTIONS_LEVEL; prepared_tocOK and prepared_files_distinct discharge its two hypotheses; toc_alone_reaches_every_file: the toc '
               'alone suffices when toc-depth covers the nesting). url_file_is_c13_owner connects to C13: the file a URL names is the file into which C13\'s model of '
-              'Renderable.__str__ (Model/Render.lean) writes the node\'s own template output. The model is tied to the real code by differential execution of abstract trees through the real '
+              'Renderable.__str__ (Model/Render.lean) writes the node\'s own template output. Footnotes: the mark of a footnote is printed in the file of its own URL, its text by the layout '
+              'of the section SectionUtils.footnotes finds by walking currentSection until a section has a filename; footnote_mark_lands proves both are the same produced file whenever only '
+              'sections create files, footnote_mark_lands_of_document for every filename template (a template naming a single file forces level -10: effSplit), every split level below '
+              'ENDSECTIONS_LEVEL and every document (prepared_navOK). The model is tied to the real code by differential execution of abstract trees through the real '
               'Renderer with stub templates; which templates emit id=/href= is carried by the document stream doc14 '
               '(real HTML5 default/minimal and XHTML default themes, output parsed with html.parser).')
 LEVEL_NOTE = ('Trusted: Lean kernel, the correspondence harness and generators, html.parser, the Python document oracle c14doc.py (LaTeX numbering rules '
@@ -41,9 +46,10 @@ TRUSTED = ['templates (which element carries id=, which href=) are tied by the d
 ASSUMPTIONS = ['labels pairwise distinct and not of the form a<10 digits> (NF-doc)', 'file names handed out by the Filenames generator are pairwise distinct (C15)',
                'every template reads obj.id before rendering its children (order in which idgen is consumed)',
                'labels inside math contain no underscore (Context.label receives a TeXFragment there: label-handling, outside C14)']
-RULE = ('url: random render trees (<= 40 nodes, depth <= 6) from the seed, 85% well-formed (levels nest, labels distinct, document root), 15% malformed; '
+RULE = ('url: random render trees (<= 40 nodes, depth <= 6; 1% with 80-200 nodes) with footnotes in paragraphs and environments, x filename template (default, single-name, other wildcard templates) '
+        'x labels (25% of the trees draw labels that collide as file names: S:a/S.a/S-a/S!a, index, sect0001, ...), 85% well-formed (levels nest, labels distinct, document root), 15% malformed; '
         'non-trivial = well-formed, at least two files, at least one node inside a file with a fragment URL, and a toc or reference present; '
-        'doc14: generated LaTeX documents x configuration; non-trivial = more than one output file and at least one cross-file link; distinct = distinct request line / document+configuration')
+        'doc14: generated LaTeX documents (30% with section labels that collide as file names or equal names the template hands out; index keys of every group: letters, digits, symbols, underscore, key@display, |textbf, |see) x configuration incl. filename template; non-trivial = more than one output file and at least one cross-file link; distinct = distinct request line / document+configuration')
 EXHAUSTIVE = {}
 CASE_TIMEOUT = 30
 GENERATED = []
@@ -54,6 +60,12 @@ DOCLEVEL = -1000000
 LEVELNAME = {-1: 'part', 0: 'chapter', 1: 'section', 2: 'subsection', 3: 'subsubsection', 4: 'paragraph', 5: 'subparagraph',
              6: 'subsubparagraph', 101: 'par', 201: 'center', 1001: 'textbf'}
 BASES = ['-', '-', '-', 'http://h/b', 'http://h/b/', 'rel/', '/', 'x//']
+# filename templates (blanks written as ~ on the request line): the default, templates that name a single file
+# (Renderer.render then forces level -10 whatever split-level says), other wildcard templates
+TEMPLATES = ['index~[$id,~sect$num(4)]'] * 5 + ['paper', 'paper.html', '~out~', '[$id,~sect$num(4)]',
+                                               'index~[$title,~sect$num(4)]', 'start~[$id,~node$num(3)]']
+# labels that become the same file name after bad-character substitution, or equal names the template hands out
+COLLIDE = ['S:a', 'S.a', 'S-a', 'S!a', 'index', 'sect0001', 'sect0002', 'paper', 'start', 'node001']
 
 # ---------------------------------------------------------------- generation (url stream)
 
@@ -64,6 +76,7 @@ class TreeGen:
         self.labels = []
         self.budget = rng.choice([3, 6, 10, 16, 25, 40]) if not big else rng.choice([80, 120, 200])
         self.big = big
+        self.collide = rng.random() < 0.25      # labels whose file names collide
 
     def label(self):
         r = self.rng
@@ -73,10 +86,14 @@ class TreeGen:
             return r.choice(self.labels)
         self.n += 1
         l = 'L%d' % self.n
+        if self.collide:
+            cands = [c for c in COLLIDE if c not in self.labels]
+            if cands and r.random() < 0.6:
+                l = r.choice(cands)
         self.labels.append(l)
         return l
 
-    def node(self, level, counters):
+    def node(self, level, counters, foot=False):
         r = self.rng
         self.budget -= 1
         kids = []
@@ -101,19 +118,19 @@ class TreeGen:
         elif level == 101:
             for _ in range(r.choice([0, 1, 1, 2])):
                 if self.budget > 0:
-                    lv = 201 if r.random() < 0.7 else 1001
+                    lv = 201 if r.random() < 0.6 else 1001
                     if self.mal and r.random() < 0.2:
                         lv = r.choice([1, 2, 3])
-                    kids.append(self.node(lv, counters))
+                    kids.append(self.node(lv, counters, foot=(lv == 1001 and r.random() < 0.6)))
         elif level == 201:
             if r.random() < 0.3 and self.budget > 0:
-                kids.append(self.node(1001, counters))
+                kids.append(self.node(1001, counters, foot=r.random() < 0.5))
         lab = self.label() if level != DOCLEVEL else '-'
         num = '-'
         if level != 101 and level != DOCLEVEL and r.random() < 0.8:
             counters[0] += 1
             num = '%d' % counters[0] if r.random() < 0.6 else '%d.%d' % (r.randint(1, 9), counters[0])
-        words = ['N', str(level), lab, num, str(len(kids))]
+        words = ['F' if foot else 'N', str(level), lab, num, str(len(kids))]
         for k in kids:
             words += k
         return words
@@ -133,7 +150,8 @@ def gen_url_case(rng, origin='gen', big=False):
     refs = [rng.choice(g.labels) for _ in range(rng.randint(0, 3)) if g.labels]
     if rng.random() < 0.3:
         refs.append('nolabel')
-    line = ' '.join([str(split), str(depth), str(nonf), base, str(len(refs))] + refs + words)
+    tmpl = rng.choice(TEMPLATES)
+    line = ' '.join([str(split), str(depth), str(nonf), base, tmpl, str(len(refs))] + refs + words)
     return Case('url', line, {'malformed': mal}, origin)
 
 
@@ -150,29 +168,35 @@ def corpus():
     C = lambda line: Case('url', line, {'malformed': False}, 'corpus')
     return [
         # two sections, an equation inside a paragraph, a subsection inside a file; toc + refs
-        C('1 3 0 - 2 s1 zz N -1000000 - - 2 N 1 s1 1 2 N 101 - - 1 N 201 e1 1 0 N 2 - 1.1 0 N 1 - 2 0'),
+        C('1 3 0 - index~[$id,~sect$num(4)] 2 s1 zz N -1000000 - - 2 N 1 s1 1 2 N 101 - - 1 N 201 e1 1 0 N 2 - 1.1 0 N 1 - 2 0'),
         # base-url with trailing slash, toc-non-files, depth-limited toc (depth 1 < nesting 3)
-        C('3 1 1 http://h/b/ 1 L3 N -1000000 - - 1 N 1 L1 1 1 N 2 L2 1.1 1 N 3 L3 1.1.1 1 N 101 - - 1 N 201 L4 7 0'),
+        C('3 1 1 http://h/b/ index~[$id,~sect$num(4)] 1 L3 N -1000000 - - 1 N 1 L1 1 1 N 2 L2 1.1 1 N 3 L3 1.1.1 1 N 101 - - 1 N 201 L4 7 0'),
         # single file (split -10): every url is index#id
-        C('-10 3 0 - 1 L2 N -1000000 - - 2 N 1 L1 1 1 N 101 - - 0 N 1 L2 2 0'),
+        C('-10 3 0 - index~[$id,~sect$num(4)] 1 L2 N -1000000 - - 2 N 1 L1 1 1 N 101 - - 0 N 1 L2 2 0'),
+        # footnotes in a section and in a subsection; a template that names a single file with an ordinary split level
+        C('2 3 0 - paper.html 1 s1 N -1000000 - - 1 N 1 s1 1 2 N 101 - - 1 F 1001 - - 0 N 2 - 1.1 1 N 101 - - 1 F 1001 - - 0'),
+        C('1 3 0 - index~[$id,~sect$num(4)] 0 N -1000000 - - 1 N 1 s1 1 2 N 101 - - 1 F 1001 - - 0 N 2 - 1.1 1 N 101 - - 1 F 1001 - - 0'),
+        # labels that become the same file name (S:a / S.a -> S-a), a section labelled index
+        C('1 3 0 - index~[$id,~sect$num(4)] 2 S:a S.a N -1000000 - - 3 N 1 S:a 1 1 N 101 - - 1 N 201 e1 1 0 N 1 S.a 2 1 N 101 - - 1 N 201 e2 2 0 N 1 index 3 0'),
         # root creates no file: '' file name  (implementation vs model only)
-        Case('url', '0 3 0 - 0 N 1 L1 1 1 N 2 L2 1.1 0', {'malformed': True}, 'corpus'),
+        Case('url', '0 3 0 - index~[$id,~sect$num(4)] 0 N 1 L1 1 1 N 2 L2 1.1 0', {'malformed': True}, 'corpus'),
         # duplicate label: last assignment wins in context.labels
-        Case('url', '1 3 0 - 1 L1 N -1000000 - - 2 N 1 L1 1 0 N 1 L1 2 0', {'malformed': True}, 'corpus'),
+        Case('url', '1 3 0 - index~[$id,~sect$num(4)] 1 L1 N -1000000 - - 2 N 1 L1 1 0 N 1 L1 2 0', {'malformed': True}, 'corpus'),
     ]
 
 
 # ---------------------------------------------------------------- implementation side (url stream)
 
 def parse_words(words, i=0):
-    assert words[i] == 'N'
+    assert words[i] in ('N', 'F')
+    foot = words[i] == 'F'
     lv, lab, num, nk = int(words[i + 1]), words[i + 2], words[i + 3], int(words[i + 4])
     i += 5
     kids = []
     for _ in range(nk):
         k, i = parse_words(words, i)
         kids.append(k)
-    return {'level': lv, 'label': None if lab == '-' else lab, 'num': '' if num == '-' else num, 'kids': kids}, i
+    return {'level': lv, 'label': None if lab == '-' else lab, 'num': '' if num == '-' else num, 'kids': kids, 'foot': foot}, i
 
 
 def canon_exc(e):
@@ -188,12 +212,13 @@ def run_url(line):
     from plasTeX.Filenames import Filenames
 
     w = line.split()
-    split, depth, nonf, base, nrefs = int(w[0]), int(w[1]), w[2] == '1', w[3], int(w[4])
-    refs = w[5:5 + nrefs]
-    tree, end = parse_words(w, 5 + nrefs)
+    split, depth, nonf, base, tmpl, nrefs = int(w[0]), int(w[1]), w[2] == '1', w[3], w[4].replace('~', ' '), int(w[5])
+    refs = w[6:6 + nrefs]
+    tree, end = parse_words(w, 6 + nrefs)
     assert end == len(w)
     config = defaultConfig()
     config['files']['split-level'] = split
+    config['files']['filename'] = tmpl
     config['document']['toc-depth'] = depth
     config['document']['toc-non-files'] = nonf
     config['document']['base-url'] = '' if base == '-' else base
@@ -202,11 +227,17 @@ def run_url(line):
     doc = TeXDocument(config=config)
     doc.context.loadBaseMacros()
     order = []        # nodes in pre-order
+    foots = []        # footnote nodes in pre-order
 
     def build(t, parent):
         lv = t['level']
-        name = 'document' if lv == DOCLEVEL else LEVELNAME[lv]
+        name = 'document' if lv == DOCLEVEL else ('footnote' if t.get('foot') else LEVELNAME[lv])
         n = doc.createElement(name)
+        if t.get('foot'):
+            # what footnote.invoke does when the parser meets \footnote
+            doc.userdata.setdefault('footnotes', []).append(n)
+            n.mark = n
+            foots.append(n)
         assert n.level == (Node.DOCUMENT_LEVEL if lv == DOCLEVEL else lv), (name, n.level)
         parent.appendChild(n)
         order.append(n)
@@ -236,7 +267,8 @@ def run_url(line):
             return '@%d' % (int(m.group(1)) - first_gen)
         return i
 
-    obs = {'U': {}, 'T': None, 'N': [], 'R': []}
+    obs = {'U': {}, 'T': None, 'N': [], 'R': [], 'owner': {}}
+    footidx = {id(n): k for k, n in enumerate(foots)}
 
     class Stub(Renderer):
         fileExtension = '.html'
@@ -245,7 +277,7 @@ def run_url(line):
             i = node.id
             u = node.url
             obs['U'][id(node)] = str(u)
-            return '<%s>%s' % (idname(i), str(node))
+            return '<%s>%s%s' % (idname(i), '{%d}' % footidx[id(node)] if id(node) in footidx else '', str(node))
 
         def textDefault(self, s):
             return str(s)
@@ -254,7 +286,7 @@ def run_url(line):
             pass
 
     r = Stub()
-    for name in set(LEVELNAME.values()) | {'document'}:
+    for name in set(LEVELNAME.values()) | {'document', 'footnote'}:
         r[name] = r.default
 
     d = tempfile.mkdtemp(prefix='c14u-')
@@ -283,6 +315,10 @@ def run_url(line):
                         lk = s.links
                         obs['N'].append('%s~%s' % (fmt(str(lk['next'].url), fmap, idname) if lk['next'] is not None else '-',
                                                    fmt(str(lk['prev'].url), fmap, idname) if lk['prev'] is not None else '-'))
+                for s in order:
+                    if s.filename and hasattr(s, 'footnotes'):
+                        for fn in s.footnotes:           # what the layout of this file prints in its footer
+                            obs['owner'].setdefault(id(fn), []).append(fmap[s.filename])
                 for l, rn in refnodes:
                     lab = rn.idref.get('label')
                     if lab is not None and getattr(lab, 'ref', None):     # the condition of the ref template
@@ -312,7 +348,7 @@ def run_url(line):
             mixin(Node, Renderable)
             try:
                 Node.renderer = r
-                r.level = split
+                r.level = split if (' ' in tmpl.strip() or '[' in tmpl.strip()) else -10      # preamble of Renderer.render
                 r.newFilename = Filenames(config['files'].get('filename'), (config['files']['bad-chars'], config['files']['bad-chars-sub']),
                                           {'jobname': 'job'}, r.fileExtension)
                 r.cacheFilenames(root)
@@ -321,7 +357,7 @@ def run_url(line):
                 def rend(n):
                     i = n.id
                     obs['U'][id(n)] = str(n.url)
-                    s = '<%s>' % idname(i)
+                    s = '<%s>%s' % (idname(i), '{%d}' % footidx[id(n)] if id(n) in footidx else '')
                     for k in n.childNodes:
                         ks = rend(k)
                         if r.files.get(k) is not None:
@@ -347,6 +383,10 @@ def run_url(line):
                         out.extend(flat2(s.tableofcontents))
                     return out
                 obs['T'] = flat2(root.tableofcontents) if hasattr(root, 'tableofcontents') else []
+                for s in order:
+                    if s.filename and hasattr(s, 'footnotes'):
+                        for fn in s.footnotes:
+                            obs['owner'].setdefault(id(fn), []).append(fmap[s.filename])
                 for l, rn in refnodes:
                     lab = rn.idref.get('label')
                     if lab is not None and getattr(lab, 'ref', None):
@@ -363,7 +403,15 @@ def run_url(line):
     sU = ','.join(fmt(obs['U'].get(id(n), '!notrendered'), fmap, idname) for n in order)
     sF = ';'.join('%s=%s' % (f, ','.join(re.findall(r'<([^>]*)>', contents[f]))) for f in sorted(contents, key=lambda x: int(x[1:])))
     sT = ','.join(obs['T'] or [])
-    return sU, sF, sT, obs['N'], ','.join(obs['R'])
+    # footnotes: the file the mark was printed in (where the stub's output for the node really ended up) and the
+    # file whose section lists the footnote in its `footnotes` (whose layout prints the text)
+    X = []
+    for k, fn in enumerate(foots):
+        tok = '{%d}' % k
+        marks = [f for f in sorted(contents) if tok in contents[f]]
+        owners = obs['owner'].get(id(fn), [])
+        X.append('%s=%s~%s' % (idname(fn.id), '+'.join(marks) or '-', '+'.join(owners) or '-'))
+    return sU, sF, sT, obs['N'], ','.join(obs['R']), ','.join(X)
 
 
 def fmt(url, fmap, idname=None):
@@ -384,7 +432,7 @@ _FIRST = [None]
 
 def impl(case, aux):
     try:
-        sU, sF, sT, N, sR = run_url(case.line)
+        sU, sF, sT, N, sR, sX = run_url(case.line)
     except AssertionError:
         raise
     except Exception as e:
@@ -392,7 +440,7 @@ def impl(case, aux):
         case.meta['trace'] = traceback.format_exc()[-600:]
         return canon_exc(e)
     # the remaining generated ids inside T/N were formatted with the file map only: normalise now
-    return 'U:%s|F:%s|T:%s|N:%s|R:%s' % (sU, sF, sT, ','.join(N) if N is not None else '*', sR)
+    return 'U:%s|F:%s|T:%s|N:%s|R:%s|X:%s' % (sU, sF, sT, ','.join(N) if N is not None else '*', sR, sX)
 
 
 def parse_obs(s):
@@ -450,9 +498,15 @@ def oracle(obs, base):
             if k < len(order) and order[k] in reached and nx != '-' and fileof(nx) not in reached:
                 reached.add(fileof(nx)); changed = True
     reach = set(files) <= reached
-    if landall and uniq and reach:
+    foot = True
+    for x in [x for x in p.get('X', '').split(',') if x]:
+        i, v = x.rsplit('=', 1)
+        mark, owner = v.split('~')
+        if mark == '-' or mark != owner or mark not in files:
+            foot = False          # the mark's href '#id' has no target in its own file
+    if landall and uniq and reach and foot:
         return 'ok'
-    return 'bad:land=%s:uniq=%s:reach=%s' % (str(landall).lower(), str(uniq).lower(), str(reach).lower())
+    return 'bad:land=%s:uniq=%s:reach=%s:foot=%s' % (str(landall).lower(), str(uniq).lower(), str(reach).lower(), str(foot).lower())
 
 
 def judge(o):
@@ -482,8 +536,8 @@ def shrink(ctx, o, evaluate):
     while improved:
         improved = False
         w = best.case.line.split()
-        nrefs = int(w[4])
-        head, refs, tw = w[:4], w[5:5 + nrefs], w[5 + nrefs:]
+        nrefs = int(w[5])
+        head, refs, tw = w[:5], w[6:6 + nrefs], w[6 + nrefs:]
         tree, _ = parse_words(tw)
         cands = []
         for i in range(len(refs)):
@@ -492,7 +546,7 @@ def shrink(ctx, o, evaluate):
             cands.append((refs, t2))
         cs = [Case('url', ' '.join(head + [str(len(r))] + r + unparse(t)), dict(best.case.meta), 'shrink') for r, t in cands]
         for r in evaluate(cs):
-            if (not r.prop_ok) or (not o.corr_ok and not r.corr_ok):
+            if (not r.prop_ok) if not o.prop_ok else (not r.corr_ok):      # keep the kind of failure being minimised
                 best = r
                 improved = True
                 break
@@ -500,7 +554,7 @@ def shrink(ctx, o, evaluate):
 
 
 def unparse(t):
-    w = ['N', str(t['level']), t['label'] or '-', t['num'] or '-', str(len(t['kids']))]
+    w = ['F' if t.get('foot') else 'N', str(t['level']), t['label'] or '-', t['num'] or '-', str(len(t['kids']))]
     for k in t['kids']:
         w += unparse(k)
     return w
